@@ -133,6 +133,15 @@ fn gen_instance(rng: &mut SplitMix64) -> InstSpec {
             0 | 1 => Drive::Poll,
             2 => Drive::CollectVec,
             3 => Drive::ByRefCollect,
+            4 => match rng.below(7) {
+                0 => Drive::Nth0,
+                1 => Drive::Fold,
+                2 => Drive::PollThenCollect,
+                3 => Drive::NthSkip(rng.range(1, 9) as u8),
+                4 => Drive::Count,
+                5 => Drive::Last,
+                _ => Drive::TakeBursts(rng.range(1, 6) as u8),
+            },
             _ => Drive::TakeBursts(rng.range(1, 6) as u8),
         },
         extra_polls: rng.range(1, 8) as u8,
@@ -177,15 +186,18 @@ pub fn swarm_run(seed: u64, ri: u64, thorough: bool, st: &mut Stats, errs: &mut 
         let ref_spec = RunSpec {
             instances: vec![InstSpec { plan: FaultPlan::None, drive: Drive::Poll, extra_polls: 8, ..inst.clone() }],
             sched_seed: 0,
+            phased: false,
+            solo_baselines: true,
         };
         let rb = Budget { max_calls: ref_cap, max_polls: ref_cap };
-        let rr = execute(&ref_spec, &[rb], &ExecOpts { record: false, keep_tail: 0, rec_polls: true, check_isolation: false });
+        let rr = execute(&ref_spec, &[rb], &ExecOpts { record: false, keep_tail: 0, rec_polls: true, check_isolation: false, rec_items: false });
         if let Some(v) = rr.violation {
             // a builder-contract violation (the reference run injects no fault)
             st.account_run((MODE_SWARM, ri, 0), &ref_spec, &rr.insts, rr.fp);
             st.violations.push(FoundViolation { id: (MODE_SWARM, ri, 0), spec: ref_spec, budgets: vec![rb], violation: v });
             return;
         }
+        st.account_run((MODE_SWARM, ri, 100 + instances.len() as u64), &ref_spec, &rr.insts, rr.fp);
         let r = &rr.insts[0];
         if r.built && !rng.chance(0.15) {
             let k = place_fault(&mut rng, r.calls, &r.poll_calls);
@@ -214,13 +226,23 @@ pub fn swarm_run(seed: u64, ri: u64, thorough: bool, st: &mut Stats, errs: &mut 
         }
     }
     let sched_seed = if rng.chance(0.3) { 0 } else { rng.next_u64() | 1 };
-    let spec = RunSpec { instances, sched_seed };
+    // a quarter of the multi-instance runs are sequential: each instance is built and driven to
+    // its end before the next one is built (state leaking from a finished or failed solver into
+    // a later one shows up only then)
+    let phased = n_inst > 1 && rng.chance(0.25);
+    let spec = RunSpec { instances, sched_seed, phased, solo_baselines: true };
     let res = execute(&spec, &budgets, &ExecOpts::default());
     st.account_run((MODE_SWARM, ri, 1), &spec, &res.insts, res.fp);
+    if spec.instances.iter().any(|i| i.nested_every > 0) && res.insts.iter().any(|s| s.fired > 0) {
+        st.probe("fault_fired_in_nested_poll_run");
+    }
+    if spec.phased && res.insts.iter().any(|s| s.fired > 0) {
+        st.probe("fault_fired_in_sequential_multi_instance_run");
+    }
     if let Some(v) = res.violation {
         st.violations.push(FoundViolation { id: (MODE_SWARM, ri, 1), spec, budgets, violation: v });
     } else if ri % 4001 == 17 {
-        let rec = execute(&spec, &budgets, &ExecOpts { record: true, keep_tail: 16, rec_polls: false, check_isolation: false });
+        let rec = execute(&spec, &budgets, &ExecOpts { record: true, keep_tail: 16, rec_polls: false, check_isolation: false, rec_items: false });
         st.samples.push(((MODE_SWARM, ri, 1), crate::evidence::sample_json(&spec, &budgets, &rec)));
     }
 }
